@@ -182,7 +182,9 @@ fn observed(t: &Tree, meth: &str, preset: &str, k: usize, iters: u64, inject: Op
             match ev {
                 Event::Draw(site, i, pass, w, ix, ov) => {
                     overridden |= *ov;
-                    draws.push(json!({"site": site_name(*site), "info": i + 1, "ix": ix + 1, "pass": pass, "w": rats(w), "exact": exact(w)}))
+                    draws.push(json!({"site": site_name(*site), "info": i + 1, "ix": ix + 1, "pass": pass, "w": rats(w), "exact": exact(w),
+                        // is the weight of the drawn outcome positive (in the floating-point numbers presented to the sampler)?
+                        "pos": if w.get(*ix).map_or(false, |x| *x > 0.0) { 1 } else { 0 }}))
                 }
                 Event::Frontier(q, w) => {
                     queue = q.iter().map(|x| x + 1).collect();
